@@ -123,6 +123,10 @@ class RegexVM:
         """
         # Try matching at each position
         for pos in range(start_pos, len(string) + 1):
+            # Each attempt counts its own steps, so short attempts never reach the
+            # in-loop poll: check the deadline between attempts as well.
+            if pos > start_pos and self.poll_callback and self.poll_callback():
+                raise RegexTimeoutError("Regex execution timed out")
             result = self._execute(string, pos, anchored=False)
             if result is not None:
                 return result
